@@ -103,6 +103,10 @@ theorem shr_top (n : BitVec 64) (r : Nat) (h1 : 2 ^ r ≤ n.toNat) (h2 : n.toNat
     · rw [Nat.pow_succ] at h2; omega
   rw [this]
 
+/-- Clearing the lowest bit (`x &^ 1`, the other way the source may round the shift down to even). -/
+theorem andnot_one : ∀ r : Fin 64, (BitVec.ofNat 64 r.val &&& ~~~(1#64)) = BitVec.ofNat 64 (r.val - r.val % 2) := by
+  decide
+
 theorem getBucket_formula (n : BitVec 64) (r : Nat) (hr4 : 4 ≤ r) (hr : r ≤ 63)
     (h1 : 2 ^ r ≤ n.toNat) (h2 : n.toNat < 2 ^ (r + 1)) :
     (getBucket n).toNat =
@@ -136,7 +140,11 @@ theorem getBucket_formula (n : BitVec 64) (r : Nat) (hr4 : 4 ≤ r) (hr : r ≤ 
       have : ¬ (BitVec.ofNat 64 r &&& 1#64) = 1#64 := by
         intro h; have := congrArg BitVec.toNat h; rw [hand, hev] at this; simp at this
       simp [this]; omega
-  rw [hl]
+  have hl' : (BitVec.ofNat 64 r &&& ~~~(1#64)) = BitVec.ofNat 64 (r - r % 2) := andnot_one ⟨r, by omega⟩
+  first
+    | rw [hl]
+    | simp only [hl']
+  clear hl hl'
   generalize hL : r - r % 2 = l at *
   have hl4 : 4 ≤ l := by omega
   have hl62 : l ≤ 62 := by omega
